@@ -670,10 +670,17 @@ void GridSequence::setAnisotropicRefinement(TypeDepth type, int min_growth, int 
     std::vector<int> weights;
     estimateAnisotropicCoefficients(type, output, weights);
 
+    // if all level limits are set and the limit box is already filled, the grid cannot grow
+    auto saturated = [&]()->bool{
+        if (level_limits.empty()) return false;
+        for(auto l : level_limits) if (l < 0) return false;
+        return not (points.missing(level_limits) and needed.missing(level_limits));
+    };
+
     int level = 0;
     do{
         updateGrid(++level, type, weights, level_limits);
-    }while(getNumNeeded() < min_growth);
+    }while(getNumNeeded() < min_growth and not saturated());
 }
 void GridSequence::setSurplusRefinement(double tolerance, int output, const std::vector<int> &level_limits){
     clearRefinement();
